@@ -1739,16 +1739,11 @@ dt_dtdiff(dt_dtdurtyp_t tgttyp, struct dt_dt_s d1, struct dt_dt_s d2)
 				int nltr = leaps_corr[i_d2] - leaps_corr[i_d1];
 
 				res.corr = nltr;
-# if BYTE_ORDER == BIG_ENDIAN
 			} else {
 				/* always repack res.corr to remove clutter
-				 * from the earlier res.sexydur ass'ment */
+				 * (sign or high bits) from the earlier
+				 * res.dv assignment */
 				res.corr = 0;
-# elif BYTE_ORDER == LITTLE_ENDIAN
-
-# else
-#  warning unknown byte order
-# endif	 /* BYTE_ORDER */
 			}
 		}
 #endif	/* WITH_LEAP_SECONDS */
